@@ -188,6 +188,9 @@ def state_variant_runs(ctx, thorough):
     cases = C2.triple_cases(ctx.rng, FFS, ctx.rng.randrange(0, 7))
     if not thorough:
         cases = [c for k, c in enumerate(cases) if k % 5 == ctx.seed % 5]
+    # nucleic-acid strands (5'/internal/3' states), waters, multi-chain, hidden chain end, cyclic, no-OXT inputs
+    extra = C2.other_cases(ctx.rng, thorough)
+    cases += extra if thorough else [c for k, c in enumerate(extra) if k % 3 == ctx.seed % 3]
     out = []
     d = ctx.scratch_dir()
     for k, case in enumerate(cases):
@@ -200,7 +203,8 @@ def state_variant_runs(ctx, thorough):
         f.write_text(text)
         cap = e2e_run(ctx, str(f), case["ff"], case.get("opts", []))
         f.unlink()
-        label = "builder:" + "-".join(case["spec"][0]["segments"][0])
+        sp0 = case["spec"][0]
+        label = "builder:" + "-".join(sp0["segments"][0] if "segments" in sp0 else sp0.get("seq", ["?"]))
         ctx.count(f"state-run:{case['ff']}")
         if "groups" not in cap or len(cap["groups"]) != len(expect):
             ctx.count("state-run:no-assignment-or-residue-count")
@@ -223,6 +227,89 @@ def state_variant_runs(ctx, thorough):
         cap["case"] = case
         out.append((label, case["ff"], case.get("opts", []), cap))
     return out
+
+
+def userff_runs(ctx, thorough):
+    """--userff/--usernames end to end: a built-in DAT file with ALL rows of one or two state-qualified
+    residue names removed (names the structure really uses, chosen from the base run). Metamorphic oracle,
+    independent of the model: atoms of residues whose state name was removed must be unassigned in the
+    user run (never written with defaulted or borrowed parameters); every other atom keeps the base
+    run's parameters."""
+    from harness.props import c02 as C2
+    from pdb2pqr import forcefield as pff
+
+    sys.path.insert(0, str(core.VERIF / "gen"))
+    from common import load_definition
+
+    d = ctx.scratch_dir()
+    dat_dir = core.REPO / "pdb2pqr" / "dat"
+    bases = FFS if thorough else ["AMBER", "PARSE"]
+    n_per = 6 if thorough else 4
+    for base in bases:
+        dat_txt = (dat_dir / f"{base}.DAT").read_text()
+        names_file = dat_dir / f"{base}.names"
+        cases = [c for c in C2.triple_cases(ctx.rng, [base], ctx.rng.randrange(0, 7)) if not c.get("opts")]
+        for case in ctx.rng.sample(cases, min(n_per, len(cases))):
+            try:
+                text, _ = C2.pdb_text(case["spec"], ter=case.get("ter", True))
+            except Exception as e:  # builder trouble
+                ctx.count(f"userff-run:skipped-{type(e).__name__}")
+                continue
+            f = d / "u.pdb"
+            f.write_text(text)
+            cap0 = e2e_run(ctx, str(f), base, [])
+            if "groups" not in cap0:
+                ctx.count("userff-run:base-run-no-assignment")
+                continue
+            used = [l for l, _ in cap0["groups"]]
+            rows_of = {}
+            for ln in dat_txt.splitlines():
+                w = ln.split()
+                if w and not ln.startswith("#"):
+                    rows_of.setdefault(w[0], 0)
+                    rows_of[w[0]] += 1
+            cand = sorted({u for u in used if u in rows_of})
+            if not cand:
+                continue
+            K = set(ctx.rng.sample(cand, min(len(cand), ctx.rng.choice([1, 1, 2]))))
+            udat = d / "user.dat"
+            udat.write_text("\n".join(ln for ln in dat_txt.splitlines() if not (ln.split() and ln.split()[0] in K)) + "\n")
+            try:  # a .names rule may legitimately re-create a removed name from another residue: then it is not "missing"
+                ffu = pff.Forcefield(base, load_definition(), str(udat), str(names_file))
+                K = {k for k in K if ffu.get_residue(k) is None}
+            except Exception as e:  # noqa
+                ctx.count(f"userff-run:user-ff-rejected-{type(e).__name__}")
+                continue
+            if not K:
+                ctx.count("userff-run:removed-name-recreated-by-names-file")
+                continue
+            cap1 = e2e_run(ctx, str(f), base, [f"--userff={udat}", f"--usernames={names_file}"])
+            f.unlink()
+            if "groups" not in cap1 or len(cap1["groups"]) != len(cap0["groups"]):
+                ctx.count("userff-run:user-run-no-assignment")
+                continue
+            ctx.count(f"userff-run:{base}")
+            h0 = {i: (q, r) for i, q, r in cap0["hits"]}
+            h1 = {i: (q, r) for i, q, r in cap1["hits"]}
+            n0 = {i: a for i, _, a, _ in cap0["recs"]}
+            n1 = {i: a for i, _, a, _ in cap1["recs"]}
+            label = "builder:" + "-".join(case["spec"][0]["segments"][0])
+            casedict = {"pdb": {"label": label, "builder_spec": case["spec"], "ter": case.get("ter", True)}, "ff": base, "removed": sorted(K), "extra": ["--userff=<base DAT without the removed residue names>", "--usernames=<base names file>"]}
+            for (l0, ids0), (l1, ids1) in zip(cap0["groups"], cap1["groups"]):
+                by0 = {n0[i]: h0.get(i) for i in ids0}
+                by1 = {n1[i]: h1.get(i) for i in ids1}
+                if l0 in K:
+                    ctx.evaluated(f"userff:{base}:{l0}", True)
+                    bad = {a: v for a, v in by1.items() if v is not None}
+                    if bad:
+                        a, v = sorted(bad.items())[0]
+                        ctx.fail({"site": "Biomolecule.apply_force_field", "condition": "parameters-for-a-residue-the-user-force-field-lacks", "ff": "user:" + base}, f"{label} with {base} minus {sorted(K)}: residue in state {l0} has no entry in the user force field, but {len(bad)} of its atoms were written with parameters, e.g. {a} -> {v} (looked up as {l1})", dict(casedict, residue=l0, atom=a, got=list(v)))
+                else:
+                    ctx.evaluated(f"userff:{base}:{l0}:kept", False)
+                    diff = {a: (by0.get(a), v) for a, v in by1.items() if by0.get(a) != v}
+                    if diff:
+                        a, v = sorted(diff.items())[0]
+                        ctx.fail({"site": "Biomolecule.apply_force_field", "condition": "other-residue-changed-by-removing-a-residue-from-the-user-force-field", "ff": "user:" + base}, f"{label} with {base} minus {sorted(K)}: residue {l0} atom {a} {v[0]} -> {v[1]}", dict(casedict, residue=l0, atom=a))
 
 
 def fmt4(scaled):
@@ -306,6 +393,7 @@ def run(ctx):
         if "recs" in cap:
             for _, lname, aname, _ in cap["recs"]:
                 pairs_by_ff.setdefault(ff, set()).add((lname, aname))
+    userff_runs(ctx, thorough=(ctx.thorough or not ok or corr_broken))
     # model lookups, one Coq evaluation per force field
     expected = {}
     for ff, pairs in pairs_by_ff.items():
@@ -338,8 +426,8 @@ def run(ctx):
             keep = set()
             for lname, ids in cap["exp_groups"]:
                 names_ = {i: a for i, l, a, _ in cap["recs"] if i in set(ids)}
+                keep.update(ids)  # atoms without an entry under the expected state must be unassigned, not borrowed
                 if all(expected.get((ff, lname, names_[i])) is not None for i in ids):
-                    keep.update(ids)
                     ctx.count("state-run:residues-judged")
                 else:
                     ctx.count("state-run:residues-not-fully-parameterised")
@@ -396,9 +484,19 @@ def run(ctx):
         "modelled, not verified: forcefield.ForcefieldHandler/Forcefield, Biomolecule.apply_force_field",
     ]
     ctx.assumptions += ["on the bundled structures the residue's observed ffname is taken as its final state; on the builder tripeptides (every residue type and named variant at N/internal/C) the expected state name comes from the harness' own table, so a residue looked up under another state's name is reported", f"user-ff cases the generator or loader rejects outright are skipped ({skipped} this run)"]
+    # composition of the C07 (ingest), C02 (state names), C01 (assign) and C08 (print) models: `pdb2pqr
+    # --assign-only` end to end (Properties/E2E_Assign.v), compared byte for byte with the real CLI path
+    from harness.props import e2e_assign
+
+    e2e_assign.run_extra(ctx)
 
 
 def replay(ctx, data):
+    from harness.props import e2e_assign
+
+    r = e2e_assign.replay_extra(ctx, data)
+    if r is not None:
+        return r
     case = data["case"]
     if "dat" in case:
         print("replay: user force field case; re-run ./check C01 with the same seed to reproduce")
